@@ -6,7 +6,8 @@ Tie: the real MemoryMapBroker is paginated (`pages` op: ReadState from the empty
 is non-empty) for page sizes 1 … n+1 and -1, both directions, over key sets with score ties, Min/MaxInt64 scores,
 keys with NUL bytes and keys that are prefixes of one another; the Lean driver runs the same lines.
 Oracle: the statement itself on the implementation's output: the concatenation of the pages is the sorted key
-list, every key exactly once, every page but the last has exactly `limit` entries, the loop finishes.
+list, every key exactly once, no page exceeds `limit`, no empty page comes with a cursor, the loop finishes;
+single-key reads return exactly the stored entry.
 The Redis/Lua half of C21 is out of scope here (no Redis server, no Lua interpreter): partial.
 """
 import json
@@ -166,7 +167,7 @@ def run(ctx):
     else:
         corpus = [l.rstrip("\n") for l in open(os.path.join(HERE, "corpus.ops")) if l.strip() and not l.startswith("#")]
         ops = list(corpus)
-        for _ in range(ctx.scale(700, 6000)):
+        for _ in range(ctx.scale(500, 6000)):
             ops += gen_scenario(ctx.rng, ctx.thorough)
 
     def nontrivial(lines, im):
@@ -180,6 +181,10 @@ def run(ctx):
         # the statement does not fix the number of requests: a trailing empty page is no violation
         if " n=" in line and " sizes=" in line:
             return " ".join(w for w in line.split() if not (w.startswith("n=") or w.startswith("sizes=")))
+        # a single page's cursor is not what the statement speaks about (the loop's outcome is): a deviating cursor
+        # alone is reported as a correspondence break by the model comparison, its consequences by the `pages` lines
+        if " cursor=" in line:
+            return " ".join(w for w in line.split() if not w.startswith("cursor="))
         return line
     _, _, model_ok = maplib.compare_all(ctx, binary, ops, "map state pagination deviates from the reference", nontrivial,
                                         extra_oracle=oracle, driver_name="Drivers/C21.lean (Model/MapHub.lean, Model/MapPage.lean)",
